@@ -53,7 +53,7 @@ func (C13) Meta() core.Meta {
 		Real:       []string{"filippo.io/age Encrypt/Decrypt", "internal/stream", "internal/format", "armor", "x/crypto"},
 		Stub:       []string{"destination writer (SimDisk)", "ciphertext source (SimSource)", "crypto/rand.Reader (tape)"},
 		FaultKinds: []string{"fault.dst.call.perm", "fault.dst.call.once", "fault.dst.byte.perm", "fault.dst.byte.once", "fault.src.sticky", "fault.src.once-data", "fault.src.once-eof"},
-		Probes:     []string{"probe.fault_in_header", "probe.fault_in_nonce", "probe.fault_in_payload", "probe.fault_at_eof", "probe.fault_in_armor_footer", "probe.error_from_Encrypt", "probe.error_from_Write", "probe.error_from_Close", "probe.error_from_armorClose", "probe.once_fault_swallowed_data_complete", "probe.src_error_from_Decrypt", "probe.src_error_from_Read", "probe.healthy_encryption_after_a_failed_one"},
+		Probes:     []string{"probe.fault_in_header", "probe.fault_in_nonce", "probe.fault_in_payload", "probe.fault_at_eof", "probe.fault_in_armor_footer", "probe.error_from_Encrypt", "probe.error_from_Write", "probe.error_from_Close", "probe.error_from_armorClose", "probe.once_fault_swallowed_data_complete", "probe.src_error_from_Decrypt", "probe.src_error_from_Read", "probe.healthy_encryption_after_a_failed_one", "probe.healthy_decryption_after_failed_ones"},
 	}
 }
 
@@ -555,6 +555,18 @@ func (e C13) execSrc(p *C13Plan, c *core.Ctx) *core.Verdict {
 				return fail("C13.src.notsticky", "failed reader does not keep failing: %s", res.StickyNote)
 			}
 		}
+	}
+	// after the failed attempts: the same identity objects read the same file from a healthy source
+	src := seam.NewSource(img, seam.Delivery{Mode: "whole"}, nil, nil)
+	res := &lib.DecResult{}
+	if raw {
+		lib.Drain(armor.NewReader(src.Reader()), lib.ReadSched{Mode: "all"}, res, nil)
+	} else {
+		res = lib.Decrypt(src.Reader(), p.File.Armor, ids, lib.ReadSched{Mode: "all"}, nil)
+	}
+	c.Stats.Inc("probe.healthy_decryption_after_failed_ones")
+	if !res.Clean() || !bytes.Equal(res.Released, P) {
+		return core.Fail("C13.src.poisoned_next", "after decryptions that hit source faults, reading the same file from a healthy source with the same identity objects gives %d of %d bytes, %s", len(res.Released), len(P), res.ErrText())
 	}
 	return nil
 }
